@@ -1,5 +1,5 @@
 """C04 — unmatched requests get 404 or 405 with a truthful Allow header."""
-from .lib import (PLUMBING, borrow_root, callee_allow, callers, closure_args_of_call, const_int, element_sources, operand_local, option_some_edges, status_const_of_ctor, switches_on_value, try_edges)
+from .lib import (PLUMBING, borrow_root, callee_allow, callers, closure_args_of_call, const_int, element_sources, operand_local, option_some_edges, result_split, status_const_of_ctor, switches_on_value, try_edges)
 
 LEVEL = "other"
 TECHNIQUE = "static analysis: path-sensitive guard facts on lookup_route's MIR (405 only under the version-filtered scan, Allow entries only for items that passed it), data-flow slices, who-calls census for handlers"
@@ -315,25 +315,26 @@ def r3_allow_only_on_405(ctx):
 def r4_no_handler(ctx):
     R = ctx.rule("C04.R4", "lookup_route invokes no handler; in http_request_handle the `?` on its result dominates both handle_request calls", floor=3)
     lr = _lr(ctx, R)
-    reg = ctx.ds.region([lr.id])
+    reg = ctx.dsn.region([lr.id])
     bad = []
     for fid in reg:
-        for bb, t in ctx.ds.F[fid].live_calls(r"RouteHandler::handle_request$|HttpHandlerFunc::handle_request$"):
+        for bb, t in ctx.dsn.F[fid].live_calls(r"RouteHandler::handle_request$|HttpHandlerFunc::handle_request$"):
             bad.append((fid, bb))
     ctx.check(R, "lookup-calls-no-handler", not bad, "handle_request calls reachable from lookup_route (%d functions): %s" % (len(reg), bad), lr)
-    top = ctx.need_fn(ctx.ds, R, r"^server::http_request_handle$")
-    hb = ctx.ds.body_of(top)
+    top = ctx.need_fn(ctx.dsn, R, r"^server::http_request_handle$")
+    hb = ctx.dsn.body_of(top)
     look = hb.live_calls(r"HttpRouter::<Context>::lookup_route$")
     if len(look) != 1:
         ctx.lost(R, "the single lookup_route call in http_request_handle")
         return
     lbb, lt = look[0]
-    te = try_edges(hb, lt["dest"]["l"])
-    if not te:
-        ctx.lost(R, "`?` on lookup_route's result")
+    sp = result_split(hb, lt["dest"]["l"])
+    if not sp:
+        ctx.lost(R, "the Ok/Err split (`?`, match, let-else) of lookup_route's result")
         return
+    te = {"switch_bb": sp["switch_bb"], "cont": sp["ok"], "brk": sp["err"]}
     hs = []
-    for g in [hb] + ctx.ds.descendants(hb):
+    for g in [hb] + ctx.dsn.descendants(hb):
         for bb, t in g.live_calls(r"RouteHandler::handle_request$"):
             hs.append((g, bb))
     for g, bb in hs:
@@ -343,8 +344,8 @@ def r4_no_handler(ctx):
             # handler call inside a spawned coroutine: the coroutine aggregate site must be dominated
             site = None
             cur = g
-            while cur is not hb and cur.raw.get("parent") in ctx.ds.F:
-                par = ctx.ds.F[cur.raw["parent"]]
+            while cur is not hb and cur.raw.get("parent") in ctx.dsn.F:
+                par = ctx.dsn.F[cur.raw["parent"]]
                 for b2, i2, s2 in par.stmts():
                     if s2["rv"]["rv"] == "agg" and s2["rv"].get("def") == cur.raw["id"]:
                         site = (par, b2)
